@@ -30,10 +30,17 @@ def _arr(t):
 
 
 def _marker_code(t):
-    """NOTSET|SET|CLEARED if t is <marker>.value()"""
+    """NOTSET|SET|CLEARED if t is <marker>.value(), directly or through a module-level constant bound to it"""
     if t[0] == "mcall" and t[2] == "value" and t[1][0] == "modvar":
         for k, v in MARKERS.items():
             if t[1][1] == v:
+                return k
+    if t[0] == "modvar" and len(t) > 2 and isinstance(t[2], ast.Call) and isinstance(t[2].func, ast.Attribute) \
+            and t[2].func.attr == "value" and not t[2].args:
+        from ..loader import dotted_name
+        dn = dotted_name(t[2].func.value) or ""
+        for k, v in MARKERS.items():
+            if dn.split(".")[-1] == v.split(".")[-1]:
                 return k
     return None
 
